@@ -14,6 +14,9 @@ CHECKS = {
    text="For every built-in channel (original and renamed) z3 proves that the traced init_state is a fixed point of the traced update_states for all v in [-120,60], all dt in (0,1000] and the parameter ranges, is defined and lies in [0,1]. Module.init_states' row selection (pandas) is only a concrete side-check on two partially-inserted cells.",
    note="exact real arithmetic; exp uninterpreted; Module.init_states (pandas) not solver-decided", ref="6 C14"),
 }
+CHECKS["C17"] = dict(cat="other", tech="SMT (z3) over the traced IR of Transform.forward/inverse: bounds, monotonicity, both round trips (split by clip regime), DAG equality for routing",
+   text="For Sigmoid, Softplus, NegSoftplus, Affine and four chains z3 proves on the traced IR, for all x in [-1e6,1e6] and all hyper-parameters in [-1000,1000], that forward is defined, within the declared bounds and monotone and that both round trips are identities wherever save_exp's clip is inactive; the clip-active half is the recorded defect F11. Masked/Custom/ParamTransform routing (also under jit) is decided by DAG equality.",
+   note="exact real arithmetic; exp/log/log1p uninterpreted with inverse/monotonicity axioms; Affine's concrete scale!=0 guard bypassed to make scale symbolic", ref="6 C17")
 NA = {}
 checks = []
 for pid, c in CHECKS.items():
